@@ -26,7 +26,33 @@ class C09(SCheck):
             "non-trivial = the step overwrote an existing file in numbered/auto mode; distinct by (case, step, signature)")
     assumptions = ["a kill inside a data call is approximated by call boundaries (metadata calls are atomic in the kernel)"]
 
+    def gen_plans(self, r, case, k):
+        if case.get("race_shape"):
+            plans = []
+            for j in range(6):
+                sp = gen.sched_plan(r, ustep=1.0)
+                sp["ustep_budget"] = 300
+                plans.append({"seed": r.randrange(1 << 48), "sched": sp})
+            return plans
+        return super().gen_plans(r, case, k)
+
     def gen_case(self, r, idx, tier):
+        if idx % 11 == 6:
+            # race shape: several workers decide about backups in *different* destination directories at the same time (auto mode:
+            # a directory listing per file), every schedule with user-space preemption: state shared between those decisions
+            # (a listing cache, a counter) is contended here
+            nd = r.randrange(5, 10)
+            ops = [gen.d_op("src"), gen.d_op("dst"), gen.d_op("dst/src")]
+            for d in range(nd):
+                ops += [gen.d_op("src/d%d" % d), gen.d_op("dst/src/d%d" % d)]
+                for f in range(r.randrange(2, 4)):
+                    ops.append(gen.f_op("src/d%d/f%d" % (d, f), r.randrange(1, 3000), pat=r.randrange(1, 1 << 30)))
+                    ops.append(gen.f_op("dst/src/d%d/f%d" % (d, f), r.randrange(1, 2000), pat=r.randrange(1, 1 << 30)))
+                    if (d + f) % 2 == 0:
+                        for n in r.sample([1, 2, 4, 9], r.randrange(1, 3)):
+                            ops.append(gen.f_op("dst/src/d%d/f%d.~%d~" % (d, f, n), r.randrange(0, 300), pat=r.randrange(1, 1 << 30)))
+            inv = gen.mk_inv(["src"], "dst", driver=r.choice(["parfile", "parfile", "parblock"]), workers=r.choice([2, 4, 8, 16]), block_size=65536, r=True, backup="auto")
+            return {"setup": ops, "steps": [{"inv": inv, "edits": []}], "max_events": 300000, "race_shape": True}
         driver, workers, bs = gen.pick_config(r)
         recursive = r.random() < 0.5
         names = r.sample(BASES, r.randrange(1, 4))
